@@ -584,7 +584,7 @@ class ODataParser(Parser):
 
         return ast.Call(func, args)
 
-    @_('ODATA_IDENTIFIER "(" ")"')  # type:ignore[no-redef]
+    @_('ODATA_IDENTIFIER "(" BWS ")"')  # type:ignore[no-redef]
     def common_expr(self, p):
         ":meta private:"
         args = []
